@@ -66,7 +66,7 @@ func conf(work string) string {
 	}
 	sb.WriteString("SecAuditLogType verifcap\nSecAuditLog /dev/null\nSecAuditLogParts ABCFHKZ\n")
 	// ---- phase 1
-	sb.WriteString(rule(1, 101, "match", "pass,log,msg:'m1'"))
+	sb.WriteString(rule(1, 101, "match", "pass,log,severity:2,msg:'m1'"))
 	sb.WriteString(rule(1, 102, "deny1", "deny,status:403,log"))
 	sb.WriteString("SecRule REQUEST_HEADERS:X-F \"@rx (cap)(ture)\" \"id:103,phase:1,pass,nolog,capture\"\n")
 	sb.WriteString(rule(1, 104, "setvar", "pass,nolog,setvar:tx.leak=1,setvar:tx.score=+5"))
@@ -91,7 +91,7 @@ func conf(work string) string {
 	sb.WriteString(rule(1, 198, "skip3,", "pass,nolog,skip:3"))
 	sb.WriteString(rule(1, 199, "skipafter,", "pass,nolog,skipAfter:ABSENT_MARKER"))
 	// ---- phase 2
-	sb.WriteString("SecRule ARGS \"@rx .\" \"id:900,phase:2,pass,log,tag:always,msg:'args'\"\n")
+	sb.WriteString("SecRule ARGS \"@rx .\" \"id:900,phase:2,pass,log,severity:5,tag:always,msg:'args %{HIGHEST_SEVERITY}'\"\n")
 	sb.WriteString("SecRule ARGS:a|ARGS:b \"@rx .\" \"id:901,phase:2,pass,log,tag:always,msg:'ab'\"\n")
 	sb.WriteString("SecRule REQUEST_BODY \"@rx .\" \"id:902,phase:2,pass,log,msg:'body'\"\n")
 	sb.WriteString("SecRule FILES \"@rx .\" \"id:903,phase:2,pass,log,msg:'files'\"\n")
